@@ -8,8 +8,8 @@ WT=/tmp/vbase_wt.$$
 mkdir -p "$(dirname "$OUT")"
 git -C /repo worktree add --detach -f "$WT" HEAD >/dev/null 2>&1 || { echo "worktree failed"; exit 2; }
 trap 'git -C /repo worktree remove --force "$WT" >/dev/null 2>&1; rm -rf "$WT"' EXIT
-export GOPROXY=off GOSUMDB=off GOFLAGS=-mod=mod
-(cd "$WT" && go test -mod=mod -json -vet=off -count=1 -timeout 25m ./... > "$OUT" 2> "$OUT.err")
+export GOPROXY=off GOSUMDB=off GOFLAGS=-mod=mod GOTOOLCHAIN=local
+(cd "$WT" && go1.26 test -mod=mod -json -vet=off -count=1 -timeout 25m ./... > "$OUT" 2> "$OUT.err")
 python3 - "$OUT" <<'EOF'
 import json, sys
 base = json.load(open('/root/.vp/BASELINE.json'))
